@@ -65,6 +65,19 @@ CHECKS = {
              "finding C04-tags (no owner column) is open.",
         technique="CrossHair symbolic execution (z3) over an executable SQL model; 2-safety and frame conditions",
         ref='4 C04'),
+    'C05': dict(
+        text="Bounded symbolic model checking of add / remove / ILI-load histories: the three operations of a "
+             "history (from the empty database or from one holding B:1) are chosen by symbolic integers "
+             "from an alphabet of adds and removes with exact, bare-id and star specifiers over a universe "
+             "of two versions of one id, an extension, an extension of the extension, a lexicon with a "
+             "satisfiable and an unsatisfiable dependency; afterwards the installed set, a foreign-key and "
+             "ownership audit of all tables, requires/extends/extensions, and the observation of every "
+             "installed lexicon (with its extension family) must equal those of a fresh database to which "
+             "just the installed lexicons were added.",
+        note=NOTE_COMMON + DB_NOTE + "Foreign-key cascades (CASCADE / SET NULL / NO ACTION) are part of "
+             "the model. Quick: 8 operations, thorough: 14. Finding C05-tags (open) is excluded.",
+        technique="CrossHair symbolic execution (z3) with solver-chosen operation histories over an executable SQL model",
+        ref='4 C05'),
     'C06': dict(
         text="Bounded symbolic model checking of the real add_lexical_resource / remove with the point "
              "of failure as a symbolic integer: the k-th SQL call or progress callback raises (Exception "
